@@ -166,6 +166,32 @@ Theorem C07_inconsistent_pixelscales_refused :
 Proof. exact plane_multiply_refused. Qed.
 Print Assumptions C07_inconsistent_pixelscales_refused.
 
+(* lentil.Tilt as a plane (TiltInterface.multiply): the default plane, which leaves the field as it is, and every
+   field's tilt list grows by exactly this one element - once per field, whatever the number of fields *)
+Theorem C07_tilt_plane_appends_itself_once :
+  forall (S : Scalar), is_ring S -> forall (t : tilt) (P : plane S) (w : pwf S) (px : option (Qc * Qc)),
+  kernel_laws S -> plane_scalar P k1 0%Qc true -> (forall f, In f (pw_data w) -> fwell f) ->
+  origin_consts (pw_data w) -> mul_pixelscale (pl_pix P) (pw_pix w) = Ok px ->
+  exists w0 w', plane_multiply P w = Ok w0 /\ elem_multiply (CTilt t P) w = Ok w' /\
+    pw_lam w' = pw_lam w /\ pw_shape w' = pw_shape w /\
+    (forall r c, embed_sum (pw_data w') r c = embed_sum (pw_data w) r c) /\
+    map (@ftilt S) (pw_data w') = map (fun f => ftilt f ++ [t]) (pw_data w0).
+Proof. exact tilt_plane_spec. Qed.
+Print Assumptions C07_tilt_plane_appends_itself_once.
+
+(* assigning an attribute of a live plane object replaces exactly that attribute; the theorems above then speak
+   about the plane's CURRENT attributes (nothing of an earlier multiply is remembered: plane_multiply is a function
+   of the plane record and the wavefront) *)
+Theorem C07_attribute_updates :
+  forall (S : Scalar) (P : plane S) a o m,
+  pl_amp (set_amp P a) = a /\ pl_opd (set_amp P a) = pl_opd P /\ pl_mask (set_amp P a) = pl_mask P /\
+  pl_slices (set_amp P a) = pl_slices P /\
+  pl_opd (set_opd P o) = o /\ pl_amp (set_opd P o) = pl_amp P /\ pl_mask (set_opd P o) = pl_mask P /\
+  pl_slices (set_opd P o) = pl_slices P /\
+  pl_mask (set_mask_inplace P m) = m /\ pl_slices (set_mask_inplace P m) = pl_slices P.
+Proof. exact setters_spec. Qed.
+Print Assumptions C07_attribute_updates.
+
 (* non-vacuity: a segmented 3x4 pupil over Z (two segments with overlapping bounding boxes, array
    amplitude, scalar opd) meets [plane_ok]; multiplying the fresh wavefront by it succeeds, takes the
    pupil's focal length, and intensity = field^2 at a sample of the second segment *)
